@@ -194,4 +194,9 @@ theorem panel_stays (ops : List SOp) : ∀ s : SState, s.panel = true → (final
 theorem final_append (a b : List SOp) (s : SState) : final (a ++ b) s = final b (final a s) := by
   simp [final, List.foldl_append]
 
+theorem assignNames_alts (ns : List NamedNest) : ∀ pos, (assignNames pos ns).map (·.2) = ns.map (·.alts) := by
+  induction ns with
+  | nil => intro _; rfl
+  | cons n rest ih => intro pos; simp [assignNames, ih]
+
 end Audit
